@@ -36,7 +36,7 @@ def expr_of(case):
 def model(case, lin):
     args = case["args"]
     if case["comb"] == "f_traverse" and case.get("fn_raises") is not None and case["fn_raises"] < len(args):
-        return ("e", ("out.tfn", case["fn_raises"]))
+        return ("e", ("c", "out.tfn", case["fn_raises"]))
     pre = case.get("predone", {})
     seq = []
     seen = []
